@@ -65,6 +65,8 @@ RULESETS = [
     [CertificateAuthPathRule("/app/public/", require_cert=False), CertificateAuthPathRule("/app/", require_cert=True)],
     [CertificateAuthPathRule("/admin/", require_cert=False, allowed_fingerprints={FP_OK})],
     [CertificateAuthPathRule("/admin/", require_cert=True, allowed_fingerprints=set())],
+    [CertificateAuthPathRule("/admin/", require_cert=False, allowed_fingerprints=set())],
+    [CertificateAuthPathRule("/admin/", require_cert=False, allowed_fingerprints=[])],
     [CertificateAuthPathRule("/a b/", require_cert=True)],
     [CertificateAuthPathRule("/", require_cert=True, allowed_fingerprints={FP_OK})],
 ]
